@@ -369,6 +369,7 @@ class Result:
         self.rule = ""
         self.tie_breaks = []      # (what, replay object)
         self.theorems = []
+        self.classes = {}
 
     def count(self, key_obj, nontrivial):
         self.evaluations += 1
@@ -382,6 +383,8 @@ class Result:
     def violation(self, key, desc, replay):
         """A concrete failing input: an oracle rejected an implementation output."""
         self.violations.append((key, desc, replay, True))
+        cls = re.sub(r"\d+", "N", desc)[:70]
+        self.classes[cls] = self.classes.get(cls, 0) + 1
 
     def tie_break(self, what, replay):
         """A proof / correspondence no longer checks and no failing input was found."""
@@ -439,6 +442,7 @@ class Result:
                 "distinct_nontrivial": len(self.nontrivial),
                 "rule": self.rule,
                 "samples": self.samples or [{"note": "no cases generated"}],
+                "violation_classes": self.classes,
             }, **self.extra),
             "assumptions": assumptions,
             "wall_s": round(time.time() - self.t0, 2),
